@@ -15,7 +15,7 @@ use crate::prng::{Prng, fnv};
 
 pub const N_S: u8 = 3;
 pub const N_P: u8 = 2;
-pub const N_O: u8 = 6;
+pub const N_O: u8 = 7;
 
 /// A triple of the universe: (subject index, predicate index, object index).
 #[derive(Clone, Copy, Debug, PartialEq, Eq, PartialOrd, Ord, Serialize, Deserialize)]
@@ -38,7 +38,9 @@ fn obj(i: u8) -> Term {
         2 => Term::lang_literal("x", "en"),
         3 => Term::typed_literal("1", "http://www.w3.org/2001/XMLSchema#integer"),
         4 => Term::blank("b0"),
-        _ => Term::literal(""),
+        5 => Term::literal(""),
+        // same lexical form and a tag that differs from object 2 in case only
+        _ => Term::lang_literal("x", "EN"),
     }
 }
 fn mk(t: T3) -> Triple {
@@ -147,7 +149,8 @@ mod pin {
             2 => Term::lang_literal("x", "en"),
             3 => Term::typed_literal("1", "http://www.w3.org/2001/XMLSchema#integer"),
             4 => Term::blank("b0"),
-            _ => Term::literal(""),
+            5 => Term::literal(""),
+            _ => Term::lang_literal("x", "EN"),
         }
     }
     fn mk(t: T3) -> Triple {
@@ -219,7 +222,7 @@ mod pin {
                         return;
                     }
                     let ins = matches!(op, ROp::SparqlInsert(_));
-                    if (t.2 == 2 || t.2 == 3) && !ins {
+                    if (t.2 == 2 || t.2 == 3 || t.2 == 6) && !ins {
                         return;
                     }
                     let tr = mk(t);
@@ -627,7 +630,7 @@ pub fn exec(cfg: &Config, ops: &[ROp]) -> ExecResult {
                     }
                     let tr = mk(t);
                     let ins = matches!(op, ROp::SparqlInsert(_));
-                    if (t.2 == 2 || t.2 == 3) && !ins {
+                    if (t.2 == 2 || t.2 == 3 || t.2 == 6) && !ins {
                         continue; // a delete of an annotated literal would hit the plain one (see below)
                     }
                     let q = format!("{} DATA {{ {} {} {} }}", if ins { "INSERT" } else { "DELETE" }, sparql_term(tr.subject()), sparql_term(tr.predicate()), sparql_term(tr.object()));
@@ -640,11 +643,11 @@ pub fn exec(cfg: &Config, ops: &[ROp]) -> ExecResult {
                             }
                             // annotated literals: does the update carry language / datatype?
                             // (probe; the run ends here because the state may be tainted)
-                            if t.2 == 2 || t.2 == 3 {
-                                let plain = Triple::new(tr.subject().clone(), tr.predicate().clone(), Term::literal(if t.2 == 2 { "x" } else { "1" }));
-                                let plain_expected = t.2 == 2 && m.contains(&T3(t.0, t.1, 1));
+                            if t.2 == 2 || t.2 == 3 || t.2 == 6 {
+                                let plain = Triple::new(tr.subject().clone(), tr.predicate().clone(), Term::literal(if t.2 == 3 { "1" } else { "x" }));
+                                let plain_expected = t.2 != 3 && m.contains(&T3(t.0, t.1, 1));
                                 if !store.contains(&tr) || (store.contains(&plain) && !plain_expected) {
-                                    let same = twin.contains(t) == store.contains(&tr) && twin.contains_plain(t, if t.2 == 2 { "x" } else { "1" }) == store.contains(&plain);
+                                    let same = twin.contains(t) == store.contains(&tr) && twin.contains_plain(t, if t.2 == 3 { "1" } else { "x" }) == store.contains(&plain);
                                     findings.push((
                                         format!("C13 | sparql={} | literal-language-or-datatype-lost | {}", op.kind(), if same { "as-pinned-tree" } else { "differs-from-pinned-tree" }),
                                         format!("step {i}: after {q} the store holds the literal without its language tag / datatype"),
